@@ -40,12 +40,21 @@ RULE = ('a case = (kind chunk|rdb|token, retry configuration (total, connect, re
         'budgets plus random ones. url cases = relative paths of 1-4 components over names with / without underscores, '
         'dashes, dots (leading / trailing slashes now and then) through S3ChunkStore.make_url and _bucket_url; '
         'and every object request of every other case kind must ask for the path the model of make_url gives for the '
-        'chunk name. Non-trivial = the '
+        'chunk name. The `retries` argument of every chunk / rdb / site case is given in one of FOUR forms: not given, '
+        'one number, (connect, read), a urllib3 Retry object; rdb cases open the data set from an http RDB URL in three '
+        'ways (TelstateDataSource.from_url(chunk_store=None), from_url(chunk_store=auto), katdal.open) under the same '
+        'fault alphabet and budgets as chunk requests: all scripts of length <= 2 for ten argument forms plus random '
+        'scripts of up to 9 faults (enough to run out of the 5 status retries of the store defaults). budget cases = one '
+        'fault-free call per request site (chunk GET, RDB GET via the three entries, bucket listing, chunk PUT, bucket PUT, '
+        'marker PUT, marker GET) x argument form, the Retry object handed to requests.HTTPAdapter.send for the first attempt '
+        'of each request recorded (total, connect, read, status, forcelist). Non-trivial = the '
         'script contains at least one fault or the token is rejected; distinct by the whole canonical case.')
 ASSUMPTIONS = [
     'urllib3 2.x / requests 2.x behaviour as installed (Retry.increment/is_exhausted, urlopen status retries, '
     'exception wrapping) is modelled, not verified; real sockets on the loopback interface; no TLS',
-    'backoff sleeping is not exercised (backoff_factor=0) except the first, zero-length back-off of the default config',
+    'backoff sleeping is not exercised: Retry objects made by the harness have backoff_factor=0, and the back-off of the '
+    'store defaults (backoff_factor=10) is skipped by replacing the `time` global of urllib3.util.retry with a proxy '
+    'whose sleep() returns at once (library side only; katdal is untouched)',
     'connect-phase failures (refused / connect timeout) are outside the fault alphabet; PUT requests and is_complete '
     'use the same request loop and are not driven separately',
     'token histories: the clock is the one katdal.chunkstore_s3 reads through its module global `time` (the translator '
@@ -95,12 +104,68 @@ def offsets(p):
     return sorted(k for k in {0, 3, 9, 40, p['hdr'], p['hdr'] + 1, n - 1} if k < n)
 
 
+class _NoSleep:
+    """Stand-in for the `time` module inside urllib3.util.retry: sleep() returns at once (the requested back-off is
+    noted), everything else is the real module."""
+
+    def __init__(self, real):
+        self._real = real
+        self.slept = []
+
+    def sleep(self, seconds):
+        self.slept.append(seconds)
+
+    def __getattr__(self, name):
+        return getattr(self._real, name)
+
+
+def _retry_tuple(r):
+    """(total, connect, read, status, forcelist) of a urllib3 Retry object, as the model's configuration."""
+    num = lambda v: None if v is None or v is False else int(v)
+    try:
+        return [num(r.total), num(r.connect), num(r.read), num(r.status), sorted(int(c) for c in (r.status_forcelist or ()))]
+    except Exception:
+        return ['?', repr(r)[:80]]
+
+
+def install_library_hooks():
+    """No real back-off sleeping inside urllib3; every HTTPAdapter.send notes the Retry object it was given."""
+    import requests.adapters
+    import urllib3.util.retry as ur
+    if not isinstance(ur.time, _NoSleep):
+        ur.time = _NoSleep(ur.time)
+    _state['nosleep'] = ur.time
+    if not getattr(requests.adapters.HTTPAdapter.send, '_c09_spy', False):
+        orig = requests.adapters.HTTPAdapter.send
+
+        def send(self, request, *a, **kw):
+            spy = _state.get('spy')
+            if spy is not None:
+                spy.append((request.method, urllib.parse.urlsplit(request.url).path, 'max-keys' in request.url,
+                            _retry_tuple(self.max_retries)))
+            return orig(self, request, *a, **kw)
+        send._c09_spy = True
+        send._c09_orig = orig
+        requests.adapters.HTTPAdapter.send = send
+
+
+def remove_library_hooks():
+    import requests.adapters
+    import urllib3.util.retry as ur
+    if isinstance(ur.time, _NoSleep):
+        ur.time = ur.time._real
+    snd = requests.adapters.HTTPAdapter.send
+    if getattr(snd, '_c09_spy', False):
+        requests.adapters.HTTPAdapter.send = snd._c09_orig
+
+
 def env():
     if 'fake' not in _state:
         quiet()
         from fixtures.s3fake import FakeS3
         _state['fake'] = FakeS3()
         _state['payloads'] = payloads()
+        install_library_hooks()
     return _state['fake'], _state['payloads']
 
 
@@ -159,15 +224,42 @@ def retries_of(cfg):
                  status_forcelist=tuple(cfg[4]))
 
 
+def retries_kw(cfg):
+    """Keyword arguments for S3ChunkStore / from_url / katdal.open: [] = the `retries` argument is not given at all."""
+    return {'retries': retries_of(cfg)} if cfg else {}
+
+
+USER_FORMS = ([], [2], [0], [1], [3], [2, 2], [0, 1], [1, 0], [1, 3], [0, 2])
+
+
+def left_out_wires():
+    """Wires whose model file does not compile on this tree (a translator item it reads is broken) and which the
+    pipeline therefore left out of the model binary."""
+    from vh import core
+    try:
+        return set(json.load(open(os.path.join(core.EXTRACT_DIR, 'left_out_wires.json'))))
+    except Exception:
+        return set()
+
+
 def model_case(case):
+    mc = model_case95(case)
+    if mc[0] == 95 and mc[1][0] != 3 and '95' in _state.get('left_out', ()) and '9' not in _state.get('left_out', ()):
+        return [9, mc[1]]        # same payloads; wire_9 computes model AND spec with the store-level budget
+    return mc
+
+
+def model_case95(case):
     _, pls = env()
     if case['kind'] == 'chunk':
         p = pls[case['payload']]
         from fixtures.s3fake import LISTING_EMPTY, LISTING_FULL
-        return [9, [1, wire_cfg(case['cfg']), p['segs'], len(LISTING_FULL) if case['bucket'] == 0 else len(LISTING_EMPTY),
+        return [95, [1, wire_cfg(case['cfg']), p['segs'], len(LISTING_FULL) if case['bucket'] == 0 else len(LISTING_EMPTY),
                     int(case['verified']), case['bucket'], case['fs'], case['fsb']]]
     if case['kind'] == 'rdb':
-        return [9, [2, wire_cfg(case['cfg']), len(rdb_bytes()), case['fs']]]
+        return [95, [2, wire_cfg(case['cfg']), len(rdb_bytes()), case['fs']]]
+    if case['kind'] == 'budget':
+        return [95, [3, wire_cfg(case['cfg'])]]
     if case['kind'] == 'session':
         from fixtures.s3fake import LISTING_EMPTY, LISTING_FULL
         return [92, [wire_cfg(case['cfg']),
@@ -181,8 +273,8 @@ def model_case(case):
     if case['kind'] == 'site':
         n = 0 if case.get('empty', True) else len(pls[case['payload']]['data'])
         if case['site'] == 'mark':
-            return [9, [6, wire_cfg(case['cfg']), case['fs']]]
-        return [9, [4 if case['site'] == 'put' else 5, wire_cfg(case['cfg']), n, case['fs']]]
+            return [95, [6, wire_cfg(case['cfg']), case['fs']]]
+        return [95, [4 if case['site'] == 'put' else 5, wire_cfg(case['cfg']), n, case['fs']]]
     t = case['token']
     p = pls[case['payload']]
     codes = lambda s: [ord(c) for c in s]
@@ -251,10 +343,23 @@ def impl_rdb(case, read_timeout):
     data = rdb_bytes()
     fake.max_wait = read_timeout + 2.0
     fake.arm([action(s) for s in case['fs']], [], 'full', data)
+    url = fake.url + '/bkt/x.rdb?capture_block_id=1234567890&stream_name=sdp_l0'
+    kw = dict(timeout=(2, read_timeout))
+    if case['cfg']:                     # [] = the `retries` argument is not given at all
+        kw['retries'] = retries_of(case['cfg'])
+    how = case.get('how', 'from_url')
     try:
-        src = TelstateDataSource.from_url(fake.url + '/bkt/x.rdb?capture_block_id=1234567890&stream_name=sdp_l0',
-                                          chunk_store=None, timeout=(2, read_timeout), retries=retries_of(case['cfg']))
-        good = src.telstate['int_time'] == 2.0 and len(src.timestamps) == 2 and 'bls_ordering' in src.telstate
+        if how == 'open':
+            import katdal
+            d = katdal.open(url, **kw)
+            src = d.source
+            good = len(d.timestamps) == 2 and d.shape[0] == 2
+        else:
+            if how == 'from_url':
+                kw['chunk_store'] = None
+            src = TelstateDataSource.from_url(url, **kw)
+            good = (src.data is None) == (how == 'from_url')
+        good = good and src.telstate['int_time'] == 2.0 and len(src.timestamps) == 2 and 'bls_ordering' in src.telstate
         cls = OK if good else 7
     except DataSourceNotFound:
         cls = 1
@@ -262,6 +367,10 @@ def impl_rdb(case, read_timeout):
         cls = RAW
     log = fake.requests()
     return cls, ''.join(k[0] for k in log), log
+
+
+def cfg_form(cfg):
+    return {0: 'absent', 1: 'int', 2: 'pair'}.get(len(cfg), 'Retry')
 
 
 BUCKET_NAMES = ('bkt', 'b_2', 'c3')       # the underscore is turned into a dash by make_url
@@ -279,7 +388,7 @@ def impl_session(case, read_timeout):
     fake.arm([], [], 'full', pls[0]['data'])
     out = []
     try:
-        store = S3ChunkStore(fake.url, timeout=(2, read_timeout), retries=retries_of(case['cfg']))
+        store = S3ChunkStore(fake.url, timeout=(2, read_timeout), **retries_kw(case['cfg']))
     except Exception as e:
         return [(classify_exc(e), '', [], None)]
     norm = {n.replace('_', '-'): i for i, n in enumerate(BUCKET_NAMES)}
@@ -390,6 +499,10 @@ def signature(case, impl_cls, want_cls, what):
     names = dict(CLASS_NAMES)
     if case['kind'] == 'rdb':
         names[1] = 'DataSourceNotFound'
+        if 'how' in case:
+            extra += ';entry=%s' % case['how']
+    if case['kind'] in ('rdb', 'chunk') and cfg_form(case['cfg']) != 'Retry':
+        extra += ';retries=%s' % cfg_form(case['cfg'])
     return 'kind=%s;faults=%s%s;what=%s;impl=%s;want=%s' % (
         case['kind'], '+'.join(kinds) or 'none', extra, what, names.get(impl_cls, impl_cls),
         names.get(want_cls, want_cls))
@@ -406,6 +519,8 @@ def compare(ctx, case, mout, read_timeout=0.5, confirm=True):
         return compare_url(ctx, case, mout)
     if kind == 'site':
         return compare_site(ctx, case, mout, read_timeout, confirm)
+    if kind == 'budget':
+        return compare_budget(ctx, case, mout)
     case['_consumed'] = mout[1]
     if kind == 'chunk':
         case['_consumed_b'] = mout[2]
@@ -529,7 +644,7 @@ def gen_cases(ctx):
         fl = rng.choice([GLITCHES, GLITCHES, (503,), (500, 504), ()])
         return [rng.choice((10, 10, None, 0, 1, 2, 3, 4)), rng.choice((0, 1, 2)), opt(3), opt(3), list(fl)]
 
-    for _ in range(ctx.scale(700, 12000)):
+    for _ in range(ctx.scale(620, 12000)):
         pi = rng.randrange(len(pls))
         n = rng.randint(1, 6)
         fs = [rand_sym(pls[pi]) for _ in range(n)]
@@ -556,7 +671,42 @@ def gen_cases(ctx):
             cases.append(dict(kind='chunk', cfg=list(cfgd), payload=1, fs=[s], fsb=[], bucket=0, verified=False))
             cases.append(dict(kind='chunk', cfg=list(cfgd), payload=1, fs=[s, [0, 403]] if s[1] not in (404, 401) else [s],
                               fsb=[], bucket=0, verified=False))
-    # (e) RDB download through TelstateDataSource.from_url
+    # (d') the `retries` argument in its number / pair / not-given forms with scripts long enough to run out of the
+    #      store defaults (5 status retries, total 10); urllib3's back-off does not really sleep (install_library_hooks)
+    def transient_script(p, n, cut=None):
+        ks = cut or offsets(p)
+        fs = []
+        for _ in range(n):
+            r = rng.random()
+            fs.append([0, rng.choice(GLITCHES)] if r < 0.55 else [1, rng.choice(ks)] if r < 0.8 else
+                      [2, rng.choice(ks)] if r < 0.9 else [4, rng.choice((0, 2))])
+        return fs
+
+    for form in USER_FORMS:
+        for _ in range(ctx.scale(16, 150)):
+            pi = rng.randrange(len(pls))
+            fs = transient_script(pls[pi], rng.randint(1, 9))
+            if rng.random() < 0.3:
+                fs.append([0, rng.choice((404, 403, 401, 400))])
+            fsb = transient_script(pls[pi], rng.choice((0, 0, 1, 3)), cut=[0, 3, 20, 60]) if fs[-1] == [0, 404] else []
+            cases.append(dict(kind='chunk', cfg=list(form), payload=pi, fs=fs, fsb=fsb, bucket=rng.choice((0, 0, 1, 2)),
+                              verified=False))
+    # (d'') the edges of the store-level budget for every number / pair / not-given form: exactly `read` cut bodies and
+    #       one more, exactly 5 glitch statuses and one more, both budgets used up together, and (form [6]) the total of 10
+    def boundary_scripts(form, cut):
+        read = 2 if not form else form[-1]
+        T, S = [1, cut], [0, 503]
+        out = [[T] * read, [T] * (read + 1), [S] * 5, [S] * 6, [S] * 5 + [T] * read, [T] * read + [S] * 5 + [[0, 403]],
+               [S] * 3 + [T] * (read + 1)]
+        return [[list(x) for x in fs] for fs in out if len(fs) <= 12]
+
+    for form in list(USER_FORMS) + [[6], [0, 5]]:
+        pi = rng.randrange(len(pls) - 1)
+        for fs in boundary_scripts(form, rng.choice(offsets(pls[pi]))):
+            cases.append(dict(kind='chunk', cfg=list(form), payload=pi, fs=fs, fsb=[], bucket=0, verified=False))
+        for fs in boundary_scripts(form, rng.choice((0, 7, 100))):
+            cases.append(dict(kind='rdb', cfg=list(form), fs=fs, how=rng.choice(RDB_ENTRIES)))
+    # (e) data sets opened from an http RDB URL: TelstateDataSource.from_url(chunk_store=None | auto), katdal.open
     nr = len(rdb_bytes())
     rsyms = [[0, 503], [0, 500], [1, 0], [1, 7], [1, nr - 1], [2, 100], [4, 0], [4, 2], [0, 404], [0, 403], [0, 400]]
     for read, status in ((0, 0), (1, 1), (2, 1), (1, 2)) if not thorough else itertools.product((0, 1, 2), repeat=2):
@@ -564,12 +714,29 @@ def gen_cases(ctx):
             for fs in itertools.product(rsyms, repeat=n):
                 if n == 2 and not thorough and rng.random() < 0.5:
                     continue
-                cases.append(dict(kind='rdb', cfg=[10, 1, read, status, list(GLITCHES)], fs=[list(s) for s in fs]))
+                cases.append(dict(kind='rdb', cfg=[10, 1, read, status, list(GLITCHES)], fs=[list(s) for s in fs],
+                                  how=rng.choice(RDB_ENTRIES)))
     for _ in range(ctx.scale(60, 600)):
         fs = [rng.choice(rsyms + [[3, rng.choice((0, 50, nr - 1))]] * (1 if slow_left[0] > 0 else 0))
               for _ in range(rng.randint(1, 5))]
         slow_left[0] -= sum(1 for s in fs if is_slow(s))
-        cases.append(dict(kind='rdb', cfg=rand_cfg(), fs=fs))
+        cases.append(dict(kind='rdb', cfg=rand_cfg(), fs=fs, how=rng.choice(RDB_ENTRIES)))
+    # ... with the `retries` argument not given / one number / a pair: every script of length <= 1 through each of the
+    # three entries, a sample of length 2 (all of them in the thorough tier), random scripts of up to 9 transient faults
+    cuts = [0, 7, 100, nr - 1]
+    for form in USER_FORMS:
+        for s1 in rsyms:
+            for how in RDB_ENTRIES if thorough or form in ([], [2], [0, 1], [1, 3]) else (rng.choice(RDB_ENTRIES),):
+                cases.append(dict(kind='rdb', cfg=list(form), fs=[list(s1)], how=how))
+        cases.append(dict(kind='rdb', cfg=list(form), fs=[], how=rng.choice(RDB_ENTRIES)))
+        for fs in itertools.product(rsyms, repeat=2):
+            if rng.random() < (0.6 if thorough else 0.15):
+                cases.append(dict(kind='rdb', cfg=list(form), fs=[list(x) for x in fs], how=rng.choice(RDB_ENTRIES)))
+        for _ in range(ctx.scale(14, 120)):
+            fs = transient_script(None, rng.randint(2, 9), cut=cuts)
+            if rng.random() < 0.25:
+                fs.append([0, rng.choice((404, 403, 401, 400))])
+            cases.append(dict(kind='rdb', cfg=list(form), fs=fs, how=rng.choice(RDB_ENTRIES)))
     return cases
 
 
@@ -632,8 +799,11 @@ def session_cases(ctx):
         return [0, 503]
 
     for _ in range(ctx.scale(170, 2500)):
-        if rng.random() < 0.5:
+        r0 = rng.random()
+        if r0 < 0.45:
             cfg = list(cfg1)
+        elif r0 < 0.6:
+            cfg = list(rng.choice(USER_FORMS))
         else:
             opt = lambda hi: rng.choice([None] + list(range(hi + 1)) * 2)
             cfg = [rng.choice((10, 10, None, 2, 3, 4)), rng.choice((0, 1, 2)), opt(2), opt(2),
@@ -1058,7 +1228,7 @@ def impl_site(case, read_timeout):
     fake.arm([action(s) for s in case['fs']], [], 'full', b'' if case.get('empty', True) else p['data'])
     val = None
     try:
-        store = S3ChunkStore(fake.url, timeout=(2, read_timeout), retries=retries_of(case['cfg']))
+        store = S3ChunkStore(fake.url, timeout=(2, read_timeout), **retries_kw(case['cfg']))
         if case['site'] == 'put':
             val = store.put_chunk('bkt/arr', slices, a)
             cls = OK if val is None else 7
@@ -1135,8 +1305,9 @@ def compare_site(ctx, case, mout, read_timeout=0.5, confirm=True):
         ctx.count('disagreements_beyond_30_signatures')
     for (k, what, a, b) in problems:
         used = case['fs'][:case['_consumed']]
-        sig = 'kind=site;site=%s;answer=%s;faults=%s;what=%s;impl=%s;want=%s' % (
+        sig = 'kind=site;site=%s;answer=%s;faults=%s%s;what=%s;impl=%s;want=%s' % (
             site, 'empty' if case.get('empty', True) else 'body', '+'.join(sorted({sym_kind(x) for x in used})) or 'none',
+            '' if cfg_form(case['cfg']) == 'Retry' else ';retries=' + cfg_form(case['cfg']),
             what, names.get(a, a), names.get(b, b))
         ctx.disagree(sig, case, dict(result=names.get(icls, icls), requests=[(e[1], e[2]) for e in log]),
                      dict(model=mout), '%s: implementation %s differs from %s (%s)' % (
@@ -1172,6 +1343,8 @@ def site_cases(ctx):
         opt = lambda hi: rng.choice([None] + list(range(hi + 1)) * 2)
         cfg = [rng.choice((10, 10, None, 2, 3)), rng.choice((0, 1, 2)), opt(3), opt(3),
                list(rng.choice([GLITCHES, GLITCHES, (503,), ()]))]
+        if rng.random() < 0.3:
+            cfg = list(rng.choice(USER_FORMS))
         pi = rng.randrange(len(pls))
         site = rng.choice(('put', 'complete', 'mark'))
         # an answer without a body cannot be cut; a reset after it would race with the complete answer
@@ -1187,6 +1360,108 @@ def site_cases(ctx):
             else:
                 fs.append([rng.choice((1, 2)), rng.choice(offsets(pls[pi])[:-1])])
         cases.append(dict(kind='site', site=site, cfg=cfg, payload=pi, fs=fs, empty=empty))
+    return cases
+
+
+# ---------------------------------------------------------------------------------------------------
+# the retry budget in force at every request site: the Retry object handed to the HTTP adapter for the FIRST attempt
+
+BUDGET_SITES = ('chunk', 'rdb', 'listing', 'put', 'bucket', 'marker', 'complete')     # order of S3Budget.all_sites
+RDB_ENTRIES = ('from_url', 'from_url_auto', 'open')
+
+
+def impl_budget(case):
+    """One fault-free call per request site on stores / data sets configured with the `retries` form of the case;
+    {site or rdb:<entry>: Retry tuple of the first attempt | 'raised X' | None (no such request seen)}."""
+    from katdal.chunkstore_s3 import S3ChunkStore
+    fake, pls = env()
+    p = pls[0]
+    a = p['array']
+    slices = tuple(slice(0, n) for n in a.shape)
+    fake.max_wait = 3.0
+    out = {}
+
+    def spied(fn, pick):
+        _state['spy'] = spy = []
+        try:
+            fn()
+        except Exception as e:
+            if not spy:
+                return 'raised %s' % type(e).__name__
+        finally:
+            _state['spy'] = None
+        return pick(spy)
+
+    first = lambda method, listing=False: (lambda spy: next((r[3] for r in spy if r[0] == method and r[2] == listing), None))
+    path = lambda suffix: (lambda spy: next((r[3] for r in spy if r[1].endswith(suffix) and not r[2]), None))
+    try:
+        store = S3ChunkStore(fake.url, timeout=(2, 2.0), **retries_kw(case['cfg']))
+    except Exception as e:
+        return {k: 'raised %s' % type(e).__name__ for k in BUDGET_SITES}
+    out['store'] = _retry_tuple(getattr(store, 'retries', None))
+    fake.arm([], [], 'full', p['data'])
+    out['chunk'] = spied(lambda: store.get_chunk('bkt/arr', slices, a.dtype), first('GET'))
+    fake.arm([('status', 404)], [], 'full', p['data'])
+    out['listing'] = spied(lambda: store.get_chunk('b_2/arr', slices, a.dtype), first('GET', True))
+    fake.arm([], [], 'full', b'')
+    out['put'] = spied(lambda: store.put_chunk('bkt/arr', slices, a), first('PUT'))
+    both = {}
+
+    def mark():
+        _state['spy'] = spy = []
+        try:
+            store.mark_complete('bkt/arr')
+        except Exception:
+            pass
+        finally:
+            _state['spy'] = None
+        both['bucket'] = next((r[3] for r in spy if r[0] == 'PUT' and r[1].rstrip('/').endswith('/bkt')), None)
+        both['marker'] = next((r[3] for r in spy if r[0] == 'PUT' and r[1].endswith('/complete')), None)
+    mark()
+    out.update(both)
+    out['complete'] = spied(lambda: store.is_complete('bkt/arr'), first('GET'))
+    for how in RDB_ENTRIES:
+        c = dict(kind='rdb', cfg=case['cfg'], fs=[], how=how)
+        out['rdb:' + how] = spied(lambda: impl_rdb(c, 2.0), path('x.rdb'))
+    return out
+
+
+def compare_budget(ctx, case, mout):
+    """Property: the Retry object every request site starts from carries the STORE-LEVEL budget of the `retries`
+    argument (total, connect, read, status, forcelist); tie: it is what the model computes for that site."""
+    conv = lambda c: [(x[0] if x else None) for x in c[:4]] + [sorted(c[4])]
+    store = conv(mout[0])
+    per_site = {k: conv(c) for k, c in zip(BUDGET_SITES, mout[1:])}
+    got = impl_budget(case)
+    ctx.traces_validated += len(got)
+    stale = bool(_state.get('stale'))
+    ok = True
+    fields = ('total', 'connect', 'read', 'status', 'forcelist')
+    for key in sorted(got):
+        site = key.split(':')[0]
+        have = got[key]
+        want_m = store if site == 'store' else per_site[site]
+        for kind, want in (('property', store), ('tie', want_m)):
+            if have == want or (kind == 'tie' and stale):
+                continue
+            ok = False
+            diff = '+'.join(f for f, x, y in zip(fields, have, want) if x != y) if isinstance(have, list) and \
+                len(have) == 5 else 'no_retry_object'
+            sig = 'kind=budget;site=%s%s;retries=%s;what=budget_in_force;differs=%s' % (
+                site, ';entry=' + key.split(':')[1] if ':' in key else '', cfg_form(case['cfg']), diff)
+            ctx.disagree(sig, dict(case, site=key), dict(first_attempt_retry=have), dict(model=want_m),
+                         'request site %s with retries=%s: the first attempt starts from Retry%s, the %s is %s'
+                         % (key, cfg_form(case['cfg']), have, 'configured (store-level) budget' if kind == 'property'
+                            else 'model of this site', want), spec=store, kind=kind)
+            break
+    return ok
+
+
+def budget_cases(ctx):
+    rng = ctx.rng
+    cases = [dict(kind='budget', cfg=list(f)) for f in USER_FORMS]
+    cases += [dict(kind='budget', cfg=[10, 1, 1, 1, list(GLITCHES)]), dict(kind='budget', cfg=[None, 0, 2, None, [503]]),
+              dict(kind='budget', cfg=[rng.choice((3, 7)), rng.choice((0, 2)), rng.choice((0, 3)), rng.choice((0, 4)), []])]
     return cases
 
 
@@ -1278,15 +1553,110 @@ def check_paths(ctx, case, log, names):
 
 # ---------------------------------------------------------------------------------------------------
 
+# ---------------------------------------------------------------------------------------------------
+# The counting spec once more, in Python.  Used ONLY for the failing-input search on a tree on which the model files of
+# this property do not compile (broken translator item: the pipeline leaves their wires out of the model binary) - and,
+# on every normal run, compared with the extracted spec on all chunk / rdb / put / is_complete cases.
+
+def py_store_budget(cfg):
+    if len(cfg) == 5:
+        return cfg
+    c, r = (2, 2) if not cfg else (cfg[0], cfg[0]) if len(cfg) == 1 else cfg
+    return [10, c, r, 5, list(GLITCHES)]
+
+
+def py_spec(cfg, length, fs):
+    """(class, number of requests) by counting faults against the store-level budget."""
+    total, _, read, status, fl = py_store_budget(cfg)
+    nr = ns = n = 0
+    for s in fs:
+        if (s[0] in (1, 2, 3) and s[1] < length) or s[0] == 4:
+            nr += 1
+        elif s[0] == 0 and s[1] in fl:
+            ns += 1
+        elif s[0] == 0:
+            return (AUTH if s[1] in (401, 403) else NOTFOUND if s[1] == 404 else UNAVAIL), n + 1
+        else:
+            return OK, n + 1
+        n += 1
+        if (read is not None and nr > read) or (status is not None and ns > status) or (total is not None and n > total):
+            return GLITCH, n
+    return OK, n + 1
+
+
+def py_mout(case):
+    """Output in the format of the wire of the case kind with the python spec in both halves; None = no fallback."""
+    _, pls = env()
+    kind = case['kind']
+    if kind == 'rdb':
+        cls, n = py_spec(case['cfg'], len(rdb_bytes()), case['fs'])
+        return [[0 if cls == OK else 1, 0], n, [cls, 0], n]
+    if kind == 'chunk':
+        cls, n = py_spec(case['cfg'], len(pls[case['payload']]['data']), case['fs'])
+        if cls == NOTFOUND:
+            return None              # the 404 rule needs the model of the listing request
+        return [[cls, 0], n, 0, int(case.get('verified', False)), [cls, 0]]
+    if kind == 'token':
+        t = case['token']
+        bad = (t['nseg'] != 3 or not t['header_ok'] or not t['claims_ok'] or (t['alg'] == 'ES256' and t['siglen'] != 86)
+               or (t['exp'] is not None and (not isinstance(t['exp'], int) or case['now'] > t['exp']))
+               or not t['has_prefix'] or (case['scheme'] != 'https' and case['host'] != '127.0.0.1')
+               or not any(case['path'].startswith(x) for x in t['prefixes']))
+        cls, n = py_spec(case['cfg'], len(pls[case['payload']]['data']), case['fs'])
+        return [[INVALIDTOK, 0], 0, 1, 0] if bad else [[cls, 0], n, 0, 0]
+    if kind == 'site' and case['site'] in ('put', 'complete') and case.get('empty', True):
+        cls, n = py_spec(case['cfg'], 0, case['fs'])
+        if case['site'] == 'put':
+            return [[cls, 0], n, [cls, 0], n]
+        r = [0, 0] if cls == OK else [1, 0] if cls in (NOTFOUND, GLITCH) else [2, cls]
+        return [r, n, r, n]
+    return None
+
+
+def safe_model(ctx, cases):
+    """Model / spec outputs of `cases`.  Kinds whose wire is not in the driver get the python spec (property half
+    only: ties are not judged then) or None."""
+    left = _state.get('left_out', set())
+    mcs = [model_case(c) for c in cases]
+    have = [i for i, m in enumerate(mcs) if str(m[0]) not in left]
+    out = [None] * len(cases)
+    if have:
+        for i, o in zip(have, ctx.model([mcs[i] for i in have])):
+            out[i] = o
+    for i, c in enumerate(cases):
+        if out[i] is None:
+            out[i] = py_mout(c)
+            ctx.count('python_spec_fallback' if out[i] is not None else 'skipped_no_model_wire')
+        elif not left and c['kind'] == 'token' and not _state.get('stale'):
+            ctx.count('python_spec_crosschecked')
+            if py_mout(c)[2] != out[i][2]:
+                ctx.disagree('kind=token;what=python_reference_spec_differs_from_extracted_spec', c,
+                             dict(python=py_mout(c)[2]), dict(extracted=out[i][2]), 'harness: the python copy of the '
+                             'bad-token disjunction differs from the extracted spec', kind='tie')
+        elif not left and c['kind'] in ('rdb', 'chunk', 'site') and not _state.get('stale'):
+            ref = py_mout(c)
+            if ref is not None:
+                whole = c['kind'] == 'site' and c['site'] == 'complete'
+                cut = (lambda r: r) if whole else (lambda r: r[0])
+                spec = (cut(out[i][2]), out[i][3]) if c['kind'] != 'chunk' else (out[i][4][0], None)
+                mine = (cut(ref[2]), ref[3]) if c['kind'] != 'chunk' else (ref[4][0], None)
+                ctx.count('python_spec_crosschecked')
+                if spec != mine:
+                    ctx.disagree('kind=%s;what=python_reference_spec_differs_from_extracted_spec' % c['kind'], c,
+                                 dict(python=mine), dict(extracted=spec), 'harness: the python copy of the counting '
+                                 'spec (used when the model does not build) differs from the extracted spec', kind='tie')
+    return out
+
+
 def canon(case):
     return json.dumps({k: v for k, v in case.items() if k not in ('token_str', 'url') and not k.startswith('_')},
                       sort_keys=True, default=str)
 
 
 def run_cases(ctx, cases):
-    mouts = ctx.model([model_case(c) for c in cases]) if (ctx.model_ok or _state.get('stale')) else None
+    mouts = safe_model(ctx, cases) if (ctx.model_ok or _state.get('stale')) else None
     for i, c in enumerate(cases):
-        if mouts is None:
+        if mouts is None or mouts[i] is None:
             continue
         compare(ctx, c, mouts[i])
         if c['kind'] == 'session':
@@ -1330,7 +1700,13 @@ def run_cases(ctx, cases):
             first = c['rel'].lstrip('/').split('/')[0]
             ctx.count('url_underscore=bucket:%d,key:%d' % (int('_' in first), int('_' in c['rel'].lstrip('/')[len(first):])))
             continue
+        if c['kind'] == 'budget':
+            ctx.note_case(canon(c), nontrivial=True, sample=c if i % 5 == 0 else None)
+            ctx.count('kind=budget')
+            ctx.count('budget_retries=' + cfg_form(c['cfg']))
+            continue
         if c['kind'] == 'site':
+            ctx.count('site_retries=' + cfg_form(c['cfg']))
             ctx.note_case(canon(c), nontrivial=bool(c['fs']), sample=c if i % 97 == 0 else None)
             ctx.count('kind=site')
             ctx.count('site=%s;answer=%s' % (c['site'], 'empty' if c.get('empty', True) else 'body'))
@@ -1340,6 +1716,10 @@ def run_cases(ctx, cases):
         ctx.note_case(canon(c), nontrivial=nontrivial,
                       sample={k: v for k, v in c.items() if k not in ('token_str', 'url', 'token')} if i % 97 == 0 else None)
         ctx.count('kind=' + c['kind'])
+        if c['kind'] in ('chunk', 'rdb'):
+            ctx.count('%s_retries=%s' % (c['kind'], cfg_form(c['cfg'])))
+        if c['kind'] == 'rdb':
+            ctx.count('rdb_entry=' + c.get('how', 'from_url'))
         ctx.count('len=%d' % len(c.get('fs', [])))
         for s in c.get('fs', []):
             ctx.count('sym=' + sym_kind(s))
@@ -1361,15 +1741,20 @@ def run(ctx):
         # half is still the property, its MODEL half describes another tree - ties are not judged with it
         from vh import core
         stamp = os.path.join(core.EXTRACT_DIR, 'stamp')
-        if not os.path.exists(stamp) or open(stamp).read() != core.model_hash():
+        # stamp = <hash of the model sources>|<model files left out of the driver>; the second part is judged below
+        if not os.path.exists(stamp) or open(stamp).read().split('|')[0] != core.model_hash():
             _state['stale'] = True
     env()
+    _state['left_out'] = left_out_wires()
+    if _state['left_out'] & {'9', '91', '92', '93', '94', '95'}:
+        _state['stale'] = True
     # known-finding witnesses first (fixed ones must pass, open ones must still fail)
     for f in ctx.findings:
         w = dict(f['witness'])
         w.setdefault('label', 'witness')
-        mo = ctx.model([model_case(w)])[0]
-        compare(ctx, w, mo)
+        mo = safe_model(ctx, [w])[0]
+        if mo is not None:
+            compare(ctx, w, mo)
         ctx.count('known_finding_witnesses')
     cdir = os.path.join(os.path.dirname(os.path.dirname(os.path.dirname(os.path.abspath(__file__)))), 'corpus', 'C09')
     if os.path.isdir(cdir):
@@ -1378,12 +1763,12 @@ def run(ctx):
                 run_cases(ctx, [json.load(open(os.path.join(cdir, fn)))])
     if ctx.model_ok and not _state.get('stale'):
         _state['expected_paths'] = expected_paths(ctx)
-    run_cases(ctx, url_cases(ctx))
-    run_cases(ctx, token_cases(ctx))
-    run_cases(ctx, hist_cases(ctx))
-    run_cases(ctx, site_cases(ctx))
-    run_cases(ctx, session_cases(ctx))
-    run_cases(ctx, gen_cases(ctx))
+    walls = ctx.extra.setdefault('wall_s_by_case_family', {})
+    for name, gen in (('url', url_cases), ('token', token_cases), ('tokhist', hist_cases), ('site', site_cases),
+                      ('session', session_cases), ('chunk+rdb', gen_cases), ('budget', budget_cases)):
+        t0 = time.time()
+        run_cases(ctx, gen(ctx))
+        walls[name] = round(time.time() - t0, 1)
     ctx.exhaustive = False
     ctx.extra['exhaustive_part'] = ('all fault scripts of length <= %d over the %d fast symbols for the 9 (read, status) '
                                     'budgets in {0,1,2}^2 (18 symbols for the zero-size payload); all histories of <= 2 get_chunk calls on one store object '
@@ -1404,7 +1789,9 @@ def run(ctx):
             ctx.disagree('what=extraction_vs_vm_compute', dict(kind='extraction'), None, None,
                          'extracted model differs from vm_compute', kind='tie')
         ctx.extra['extraction_crosscheck_cases'] = len(sample)
+    ctx.extra['backoff_sleeps_skipped'] = len(_state['nosleep'].slept)
     _state['fake'].close()
+    remove_library_hooks()
     _state.clear()
 
 
@@ -1413,10 +1800,15 @@ def replay(ctx, doc):
     case = doc.get('case') or doc.get('witness')
     if not case or 'kind' not in case:
         return
-    if ctx.model_ok:
+    _state['left_out'] = left_out_wires()
+    if _state['left_out'] & {'9', '91', '92', '93', '94', '95'}:
+        _state['stale'] = True
+    if ctx.model_ok and not _state.get('stale'):
         env()
         _state['expected_paths'] = expected_paths(ctx)
-    mo = ctx.model([model_case(case)])[0]
+    mo = safe_model(ctx, [case])[0]
+    if mo is None:
+        return
     ok = compare(ctx, case, mo)
     ctx.note_case(canon(case))
     log = __import__('sys').stderr
